@@ -273,6 +273,11 @@ def check_cdraw(run, sl, model, op, x):
     return True
 
 
+class DrawRaised(Exception):
+    def __init__(self, k, exc):
+        self.k, self.exc = k, exc
+
+
 def _one_pass(scen, objs, which, run=None):
     """Execute the schedule once; returns list of arrays (one per draw op)."""
     gens = [np.random.default_rng(s) for s in scen["gens"]]
@@ -287,21 +292,35 @@ def _one_pass(scen, objs, which, run=None):
             continue
         obj = objs[op["slot"]]
         rs = op["rs"]
-        if op["op"] == "cdraw":
-            out.append(np.asarray(obj.distributions[op["dim"]].draw_sample(op["n"], np.array(op["given"], dtype=float), random_state=int(rs["seed"]))))
-            continue
-        if rs["kind"] == "none":
-            seams.pin_global(rs["pin"])
-            x = obj.draw_sample(op["n"])
-        elif rs["kind"] == "int":
-            x = obj.draw_sample(op["n"], random_state=int(rs["seed"]))
-        else:
-            x = obj.draw_sample(op["n"], random_state=gens[rs["gen"]])
-        out.append(np.asarray(x))
+        try:
+            if op["op"] == "cdraw":
+                out.append(np.asarray(obj.distributions[op["dim"]].draw_sample(op["n"], np.array(op["given"], dtype=float), random_state=int(rs["seed"]))))
+                continue
+            if rs["kind"] == "none":
+                seams.pin_global(rs["pin"])
+                x = obj.draw_sample(op["n"])
+            elif rs["kind"] == "int":
+                x = obj.draw_sample(op["n"], random_state=int(rs["seed"]))
+            else:
+                x = obj.draw_sample(op["n"], random_state=gens[rs["gen"]])
+            out.append(np.asarray(x))
+        except Exception as e:  # noqa: BLE001 - an exception from the sampler is an outcome of the run
+            raise DrawRaised(k, e)
     return out
 
 
 def execute(prop, scen):
+    try:
+        return _execute(prop, scen)
+    except DrawRaised as d:
+        run = core.Run(prop, scen)
+        op = scen["ops"][d.k]
+        sl = scen["slots"][op["slot"]]
+        run.violate("I0-draw-raises", f"{sl['kind']}/{type(d.exc).__name__}", {"op_index": d.k, "op": op, "exc": repr(d.exc)[:300], "families": [sl.get("family")] if sl["kind"] == "dist" else [x["family"] for x in sl["dims"]]})
+        return run
+
+
+def _execute(prop, scen):
     run = core.Run(prop, scen)
     sig_slots = [(s["kind"], s.get("family"), [(d["family"], d["cond_on"]) for d in s.get("dims", [])]) for s in scen["slots"]]
     run.signature = core.digest([sig_slots, [(o["op"], o.get("slot"), o.get("n"), (o.get("rs") or {}).get("kind"), o.get("dim")) for o in scen["ops"]]])
